@@ -303,8 +303,8 @@ fn apply(s: &mut Sess, cov: &mut Cov, op: &str, row: usize, key: &str, val: Opti
     if r.is_err() {
         return "panic";
     }
-    if op == "Set" {
-        s.note_key(key);
+    if op != "ClearRow" {
+        s.note_key(key); // the touched cell is always read back, also when the key has no column
     }
     if op != "ClearRow" {
         s.touched.entry(key.to_string()).or_default().insert(row);
